@@ -1,7 +1,7 @@
 """C02 -- repetition bounds (`times`) are honoured exactly."""
 from ..tmplcheck import family_results, report
 
-FLOORS = {"C02.T5.times-of-a-macro-use": 8, "C02.T.bounds": 40, "C02.T.group": 40, "C02.T1.times-extraction": 1000, "C02.T.none": 500, "C02.T3.A2.sequence": 4, "C02.T3.R1.frame-end": 20}
+FLOORS = {"C02.Q.searched-stream-is-this-operations": 2, "C02.T5.times-of-a-macro-use": 8, "C02.T.bounds": 40, "C02.T.group": 40, "C02.T1.times-extraction": 1000, "C02.T.none": 500, "C02.T3.A2.sequence": 4, "C02.T3.R1.frame-end": 20}
 
 
 def run(ctx) -> None:
@@ -47,3 +47,6 @@ def run(ctx) -> None:
         diff = sorted(with_m ^ manual, key=str)
         ctx.check(not diff, "C02.T5.times-of-a-macro-use", f"produce_regex[{label}]", (str(diff[0]) if diff else "")[:300],
                   f"a rule whose repeated item is written with a macro compiles to the regex of the inlined rule ({label})")
+    # Q: the regex is searched in the stream of this operation's own listing (nothing carried over from an earlier operation)
+    from ._matchrules import stream_per_run
+    stream_per_run(ctx, "C02.Q.searched-stream-is-this-operations")
